@@ -213,9 +213,24 @@ def run_scalars(omp, res, seed):
         # refusals
         other = "<f8" if k != "f64" else "<i4"
         okind = "f64" if k != "f64" else "i32"
-        wrong = [("wrong-dtype-numpy", lambda: getattr(K, "first_" + k)(p=np.ones(4, dtype=other))), ("wrong-dtype-xobject", lambda: getattr(K, "first_" + k)(p=getattr(xo, xt.XONAME[okind])[:]([1, 2, 3], _context=ctx))),
-                 ("positional", lambda: getattr(K, "id_" + k)(1)), ("missing", lambda: getattr(K, "st_" + k)(x=1)), ("extra", lambda: getattr(K, "id_" + k)(x=1, y=2)), ("misnamed", lambda: getattr(K, "id_" + k)(z=1)),
-                 ("positional+named", lambda: getattr(K, "st_" + k)(1, out=np.zeros(8, dtype="u1")))]
+        wrong = []
+        # the two public ways to reach a kernel of a context: the dispatcher attribute and the kernel object itself (item access)
+        for route, get in (("attr", lambda nm: getattr(K, nm)), ("item", lambda nm: K[nm])):
+            wrong += [("wrong-dtype-numpy:" + route, lambda get=get: get("first_" + k)(p=np.ones(4, dtype=other))),
+                      ("wrong-dtype-xobject:" + route, lambda get=get: get("first_" + k)(p=getattr(xo, xt.XONAME[okind])[:]([1, 2, 3], _context=ctx))),
+                      ("positional:" + route, lambda get=get: get("id_" + k)(1)), ("missing:" + route, lambda get=get: get("st_" + k)(x=1)),
+                      ("extra:" + route, lambda get=get: get("id_" + k)(x=1, y=2)), ("misnamed:" + route, lambda get=get: get("id_" + k)(z=1)),
+                      ("extra-pointer:" + route, lambda get=get: get("first_" + k)(p=np.ones(4, dtype=dt), q=np.ones(4, dtype=dt))),
+                      ("positional+named:" + route, lambda get=get: get("st_" + k)(1, out=np.zeros(8, dtype="u1")))]
+        # ... and a legal call through the kernel object
+        res.transitions += 1
+        res.events["by-value"] += 1
+        try:
+            r = K["id_" + k](x=extremes(k)[1])
+            if not same_bits(dt, r, extremes(k)[1]):
+                v.bad("C17.by-value", "value-changed", "id_%s through the kernel object -> %r" % (k, r), kind=k, route="item")
+        except Exception as e:
+            v.bad("C17.accepts", "legal-call-raises:" + type(e).__name__, "id_%s through the kernel object: %r" % (k, e), kind=k, route="item")
         for wname, fn in wrong:
             res.transitions += 1
             res.events["refusal"] += 1
